@@ -42,14 +42,17 @@ THEOREMS = ["AurelVerif.C15." + t for t in (
     "stored_flag_independent")]
 FILES = ["AurelVerif/Props/C15.lean", "AurelVerif/Lemmas/SymCore.lean", "AurelVerif/Lemmas/SymFill.lean",
          "AurelVerif/Lemmas/SymTensors.lean", "AurelVerif/Spec/SymTensors.lean",
-         "AurelVerif/Model/SymFill.lean", "AurelVerif/Gen/SymFormulas.lean", "AurelVerif/Gen/SymLoops.lean"]
+         "AurelVerif/Model/SymFill.lean", "AurelVerif/Gen/SymFormulas.lean", "AurelVerif/Gen/SymLoops.lean",
+         "Driver/C15.lean"]
 
 KEYS = ["gdown", "gup", "gdet", "Gamma_down", "Gamma_udd", "Riemann_down", "Riemann_uddd",
         "Ricci_down", "RicciS", "Einstein_down"]
 RANK = {"gdown": 2, "gup": 2, "gdet": 0, "Gamma_down": 3, "Gamma_udd": 3, "Riemann_down": 4,
         "Riemann_uddd": 4, "Ricci_down": 2, "RicciS": 0, "Einstein_down": 2}
 COMPUTED = ["Gamma_down", "Gamma_udd", "Riemann_down", "Riemann_uddd", "Ricci_down", "RicciS", "Einstein_down"]
-BRANCHED = ("Riemann_down", "Ricci_down")
+# key -> key whose presence in self.data selects the `_cached` branch (refreshed from the
+# regenerated method table in run(), so a changed guard is followed, not assumed)
+GUARDS = {"Riemann_down": "Riemann_uddd", "Ricci_down": "Riemann_uddd"}
 PROGS = ["Gamma_down", "Gamma_udd", "Riemann_down_cached", "Riemann_down_direct", "Riemann_uddd",
          "Ricci_down_cached", "Ricci_down_direct", "Einstein_down"]
 COORD_NAMES = ["t", "x", "y", "z"]
@@ -87,6 +90,16 @@ def tagged_inputs(n, coords):
     d["Riemann_uddd"] = arr(4, lambda i, j, k, h: 0 if k == h else
                             (F("Ru_%d%d%d%d" % (i, j, k, h)) if k < h else -F("Ru_%d%d%d%d" % (i, j, h, k))))
     d["Ricci_down"] = arr(2, lambda i, j: F("Ric_%d%d" % (min(i, j), max(i, j))))
+
+    def rd(i, j, k, h):
+        if i == j or k == h:
+            return 0
+        sgn = (1 if i < j else -1) * (1 if k < h else -1)
+        a, b = (min(i, j), max(i, j)), (min(k, h), max(k, h))
+        a, b = min(a, b), max(a, b)
+        return sgn * F("Rd_%d%d%d%d" % (a + b))
+    d["Riemann_down"] = arr(4, rd)
+    d["Einstein_down"] = arr(2, lambda i, j: F("Ein_%d%d" % (min(i, j), max(i, j))))
     return d
 
 
@@ -279,7 +292,11 @@ def compare_fill(stored, T, model, n, r, rng):
 
 
 def branch_name(key, had):
-    return key + (("_cached" if had else "_direct") if key in BRANCHED else "")
+    return key + (("_cached" if had else "_direct") if key in GUARDS else "")
+
+
+def guard_present(key, data):
+    return GUARDS.get(key, "Riemann_uddd") in data
 
 
 # ------------------------------------------------------------------ correspondence
@@ -297,12 +314,12 @@ def corr_isolated(ctx, fills):
                 if flag and RANK[key] == 4 and n >= (4 if ctx.tier == "thorough" else 3):
                     continue    # sympy.simplify on 81 / 256 tagged rank-4 components is too slow
                 data = {k: v for k, v in tags.items() if k != key}
-                if prog.endswith("_direct") or key == "Riemann_uddd":
-                    data.pop("Riemann_uddd", None)
+                if prog.endswith("_direct"):
+                    data.pop(GUARDS[key], None)
                 inst = mod.AurelCoreSymbolic(list(coords), verbose=False, simplify=flag)
                 inst.data = dict(data)
                 stored = getattr(mod.AurelCoreSymbolic, key)(inst)
-                d = checked_fill(key, "Riemann_uddd" in data, coords, flag, data, stored, fills[(prog, n)], ctx.rng)
+                d = checked_fill(key, guard_present(key, data), coords, flag, data, stored, fills[(prog, n)], ctx.rng)
                 ncase += 1
                 if d:
                     bad.append("%s n=%d simplify=%s: %s" % (prog, n, flag, d))
@@ -322,7 +339,7 @@ def observed_class(rec):
         orig = getattr(base, key)
 
         def f(self):
-            had = "Riemann_uddd" in self.data
+            had = guard_present(key, self.data)
             out = orig(self)
             rec.append((key, had, out, dict(self.data)))
             return out
@@ -399,8 +416,8 @@ def corr_histories(ctx, fills, plan):
             if b not in PROGS:
                 continue
             data = dict(snap)
-            if not had:
-                data.pop("Riemann_uddd", None)
+            if not had and key in GUARDS:
+                data.pop(GUARDS[key], None)
             d = checked_fill(key, had, coords, flag, data, stored, fills[(b, n)], ctx.rng)
             nfill += 1
             if d:
@@ -418,6 +435,11 @@ def corr_histories(ctx, fills, plan):
 def correspondence(ctx):
     progs_n = [(p, n) for p in PROGS for n in (2, 3, 4)]
     try:
+        names = ctx.run_driver("Driver/C15.lean", ["progs"])[0].split(" ")[1:]
+        if sorted(names) != sorted(PROGS):
+            ctx.obligation("correspondence:driver", False, "method branches with fill loops changed: %s" % names,
+                           kind="correspondence")
+            return
         outs = ctx.run_driver("Driver/C15.lean", ["fill %s %d" % pn for pn in progs_n])
     except Exception as ex:  # noqa
         ctx.obligation("correspondence:driver", False, repr(ex), kind="correspondence")
@@ -441,7 +463,8 @@ def correspondence(ctx):
     for order in history_orders(ctx, 90, 10 if thorough else 4):
         plan.append((2, False, order, True))
     # sympy.simplify on tagged (undefined-function) expressions costs 5-15 s per history
-    for order in history_orders(ctx, 12 if thorough else 3, 1 if thorough else 0, maxtail=8 if thorough else 2):
+    # (the flag never changes the loop structure; all 8 branches are covered with simplify=True above)
+    for order in history_orders(ctx, 12 if thorough else 2, 1 if thorough else 0, maxtail=8 if thorough else 0):
         plan.append((2, True, order, True))
     for order in history_orders(ctx, 90 if thorough else 8, 2):
         plan.append((3, False, order, True))
@@ -565,8 +588,8 @@ def check_case(ctx, name, cnames, entries, flag, order, pt_s, report=True):
     inst.data["gdown"] = g
     had = {}
     for k in order:
-        if k in BRANCHED and k not in inst.data:
-            had[k] = "Riemann_uddd" in inst.data
+        if k in GUARDS and k not in inst.data:
+            had[k] = guard_present(k, inst.data)
         inst[k]
     fails = []
     for k in KEYS:
@@ -595,8 +618,13 @@ def check_case(ctx, name, cnames, entries, flag, order, pt_s, report=True):
         by_site = {}
         for f in fails:
             by_site.setdefault(f["site"], []).append(f)
+        seen = ctx.cov.setdefault("violating_sites", [])
         for site, fs in by_site.items():
             f0 = fs[0]
+            tag = "%s simplify=%s" % (site, flag)
+            if tag in seen or len(ctx.violations) >= 4:   # one witness per call site and flag value, at most 4
+                continue
+            seen.append(tag)
             ctx.violation(
                 "%s%s of metric %s at %s with simplify=%s after requests %s: code %s, textbook %s (%d component(s) of this key differ)"
                 % (f0["key"], f0["index"], entries, pt_s, flag, order[:order.index(f0["key"]) + 1], f0["observed"], f0["expected"], len(fs)),
@@ -620,6 +648,8 @@ def search(ctx, deep):
         dist[k] = dist.get(k, 0) + 1
     # corpus first: both flags, the cache states that matter
     for (name, cn, ent, pt) in corpus_metrics():
+        if len(ctx.violations) >= 4:
+            break
         for flag in (False, True):
             for order in (SEARCH_ORDERS[:3] if (thorough or not flag) else SEARCH_ORDERS[:2]):
                 found += len(check_case(ctx, name, cn, ent, flag, order, pt))
@@ -627,13 +657,15 @@ def search(ctx, deep):
                 note(len(cn), flag)
     # random metrics
     plan = []
-    plan += [(2, False)] * (6 if thorough else 3) + [(2, True)] * (4 if thorough else 2)
+    plan += [(2, False)] * (6 if thorough else 3) + [(2, True)] * (4 if thorough else 1)
     plan += [(3, False)] * (6 if thorough else 3) + [(3, True)] * (2 if thorough else 1)
     if thorough or deep:
         plan += [(4, False)] * (3 if thorough else 1)
     if thorough:
         plan += [(4, True)]
     for (n, flag) in plan:
+        if len(ctx.violations) >= 4:      # enough concrete witnesses
+            break
         cn = COORD_NAMES[:n]
         coords = [sp.Symbol(c) for c in cn]
         while True:
@@ -678,6 +710,10 @@ def run(ctx):
     try:
         changed, info = symformulas.regen()
         ctx.obligation("py2lean:symformulas", True, "regenerated (changed=%s)" % changed, kind="translation")
+        for k, brs in info["methods"].items():
+            for b in brs:
+                if b["guard"]:
+                    GUARDS[k] = b["guard"][1]
         ctx.sample({"generated_line": "Riemann_down_direct", "lets": info["lines"]["Riemann_down_direct"]["lets"]})
         ctx.sample({"generated_loops": "Riemann_uddd", "loopvars": info["progs"]["Riemann_uddd"]["loopvars"],
                     "prog": info["progs"]["Riemann_uddd"]["prog"]})
